@@ -227,6 +227,23 @@ CMR_ERROR CMRsubmatWriteToFile(CMR* cmr, CMR_SUBMAT* submatrix, size_t numRows, 
   return CMR_OKAY;
 }
 
+/**
+ * \brief Returns whether the header numbers just read from \p stream are followed by whitespace or the end of the stream.
+ *
+ * The conversion %zu stops at the first character that is not a digit, so "2.0" or "3x" would otherwise be read as a size
+ * followed by further input.
+ */
+
+static
+bool headerTerminated(FILE* stream)
+{
+  int c = fgetc(stream);
+  if (c == EOF)
+    return true;
+  ungetc(c, stream);
+  return c == ' ' || c == '\t' || c == '\n' || c == '\r' || c == '\v' || c == '\f';
+}
+
 CMR_ERROR CMRsubmatReadFromStream(CMR* cmr, CMR_SUBMAT** psubmatrix, size_t* pnumMatrixRows, size_t* pnumMatrixColumns,
   FILE* stream)
 {
@@ -238,8 +255,11 @@ CMR_ERROR CMRsubmatReadFromStream(CMR* cmr, CMR_SUBMAT** psubmatrix, size_t* pnu
   size_t numOriginalColumns;
   size_t numRows;
   size_t numColumns;
-  if (fscanf(stream, "%zu %zu %zu %zu", &numOriginalRows, &numOriginalColumns, &numRows, &numColumns) != 4)
+  if (fscanf(stream, "%zu %zu %zu %zu", &numOriginalRows, &numOriginalColumns, &numRows, &numColumns) != 4
+    || !headerTerminated(stream))
+  {
     return CMR_ERROR_INPUT;
+  }
 
   if (numOriginalRows > INT_MAX || numOriginalColumns > INT_MAX || numRows > numOriginalRows
     || numColumns > numOriginalColumns)
@@ -1095,7 +1115,7 @@ CMR_ERROR CMRdblmatCreateFromSparseStream(CMR* cmr, FILE* stream, CMR_DBLMAT** p
 
   size_t numRows, numColumns, numNonzeros;
   int numRead = fscanf(stream, "%zu %zu %zu", &numRows, &numColumns, &numNonzeros);
-  if (numRead < 3)
+  if (numRead < 3 || !headerTerminated(stream))
   {
     CMRraiseErrorMessage(cmr, "Could not read number of rows, columns and nonzeros.");
     return CMR_ERROR_INPUT;
@@ -1202,7 +1222,7 @@ CMR_ERROR CMRintmatCreateFromSparseStream(CMR* cmr, FILE* stream, CMR_INTMAT** p
 
   size_t numRows, numColumns, numNonzeros;
   int numRead = fscanf(stream, "%zu %zu %zu", &numRows, &numColumns, &numNonzeros);
-  if (numRead < 3)
+  if (numRead < 3 || !headerTerminated(stream))
   {
     CMRraiseErrorMessage(cmr, "Could not read number of rows, columns and nonzeros.");
     return CMR_ERROR_INPUT;
@@ -1317,7 +1337,7 @@ CMR_ERROR CMRchrmatCreateFromSparseStream(CMR* cmr, FILE* stream, CMR_CHRMAT** p
 
   size_t numRows, numColumns, numNonzeros;
   int numRead = fscanf(stream, "%zu %zu %zu", &numRows, &numColumns, &numNonzeros);
-  if (numRead < 3)
+  if (numRead < 3 || !headerTerminated(stream))
   {
     CMRraiseErrorMessage(cmr, "Could not read number of rows, columns and nonzeros.");
     return CMR_ERROR_INPUT;
@@ -1506,7 +1526,7 @@ CMR_ERROR CMRdblmatCreateFromDenseStream(CMR* cmr, FILE* stream, CMR_DBLMAT** pr
 
   size_t numRows, numColumns;
   int numRead = fscanf(stream, "%zu %zu", &numRows, &numColumns);
-  if (numRead < 2)
+  if (numRead < 2 || !headerTerminated(stream))
   {
     CMRraiseErrorMessage(cmr, "Could not read number of rows and columns.");
     return CMR_ERROR_INPUT;
@@ -1578,7 +1598,7 @@ CMR_ERROR CMRintmatCreateFromDenseStream(CMR* cmr, FILE* stream, CMR_INTMAT** pr
 
   size_t numRows, numColumns;
   int numRead = fscanf(stream, "%zu %zu", &numRows, &numColumns);
-  if (numRead < 2)
+  if (numRead < 2 || !headerTerminated(stream))
   {
     CMRraiseErrorMessage(cmr, "Could not read number of rows and columns.");
     return CMR_ERROR_INPUT;
@@ -1658,7 +1678,7 @@ CMR_ERROR CMRchrmatCreateFromDenseStream(CMR* cmr, FILE* stream, CMR_CHRMAT** pr
 
   size_t numRows, numColumns;
   int numRead = fscanf(stream, "%zu %zu", &numRows, &numColumns);
-  if (numRead < 2)
+  if (numRead < 2 || !headerTerminated(stream))
   {
     CMRraiseErrorMessage(cmr, "Could not read number of rows and columns.");
     return CMR_ERROR_INPUT;
